@@ -779,6 +779,8 @@ package godi
 //@   pure
 //@   safety off
 //
+// a declared dependency that resolution will be able to satisfy (or is allowed to miss)
+//@ pred depRegistered(sc *collection, dep *reflection.Dependency) = dep.Optional || dep.Group != "" || (dep.Type in reservedTypes) || (mk("TypeKey", dep.Type, dep.Key) in sc.services)
 //@ func collection.doBuild
 //@   safety[C15,C08]
 //@   dead return#3
@@ -795,6 +797,9 @@ package godi
 //@        && (forall k TypeKey :: ((k in p.services) <==> (k in sc.services)) && p.services[k] == sc.services[k])
 //@        && (forall k GroupKey :: ((k in p.groups) <==> (k in sc.groups)) && len(p.groups[k]) == len(sc.groups[k]) && (forall i int :: 0 <= i && i < len(p.groups[k]) ==> p.groups[k][i] == sc.groups[k][i]))
 //@   at after assign p#1 : assert[C04,C01] shares_analyzer_and_graph: p.analyzer == sc.analyzer && p.graph == g && fresh(p) && p.scopes != nil && len(p.scopes) == 0 && p.disposed == 0
+//@   ensures[C08] accepted_means_every_required_dependency_is_registered: result1 == nil ==> (forall i int, j int :: 0 <= i && i < len(sc.allDescriptors) && sc.allDescriptors[i] != nil
+//@        && 0 <= j && j < len(sc.allDescriptors[i].Dependencies) ==> depRegistered(sc, sc.allDescriptors[i].Dependencies[j]))
+//@   ensures[C08] root_initializers_run_after_singletons: result1 == nil ==> calltime("provider.createAllSingletonsWithContext", 0) < calltime("newScope", 0)
 //@   ensures[C15] value_xor_error: (result1 == nil) <==> (result0 != nil)
 //@   ensures[C15] failure_is_build_error: result1 != nil ==> typeis(result1, "*BuildError") && as(result1, "*BuildError") != nil
 //@   ensures[C05,C06] graph_gets_every_registration_in_order: forall c int :: 0 <= c && c < nreg && c < ncalls("graph.DependencyGraph.AddProviderDeferred") ==>
